@@ -54,6 +54,15 @@ fn commitments_are_draws<C: Ciphersuite, L: Lab<C>>(lab: &mut L, comms: &[Elemen
     }
 }
 
+/// "with a different output every one of those values changes": the same call on fresh source
+/// output yields, position by position, different secret values
+fn changes_with_source<C: Ciphersuite, L: Lab<C>>(lab: &mut L, a: &[Element<C>], b: &[Element<C>], what: &str) {
+    lab.check(a.len() == b.len(), &format!("{what}: the same number of secret values on a second call"));
+    for (x, y) in a.iter().zip(b.iter()) {
+        lab.ne_generic_e(*x, *y, &format!("{what}: a different source output changes every secret value"));
+    }
+}
+
 pub fn run<C: RandomizedCiphersuite, L: Lab<C>>(lab: &mut L, p: &Params) {
     let t = p.t as usize;
     match p.variant {
@@ -91,6 +100,10 @@ pub fn run<C: RandomizedCiphersuite, L: Lab<C>>(lab: &mut L, p: &Params) {
             let id1 = Identifier::<C>::try_from(1u16).unwrap();
             let comms: Vec<Element<C>> = s1[&id1].commitment().coefficients().iter().skip(1).map(|c| c.value()).collect();
             commitments_are_draws::<C, L>(lab, &comms, 0, "split polynomial");
+            if let Ok((s2, _)) = fc::keys::split(&key, p.n, p.t, IdentifierList::Default, lab.rng()) {
+                let comms2: Vec<Element<C>> = s2[&id1].commitment().coefficients().iter().skip(1).map(|c| c.value()).collect();
+                changes_with_source::<C, L>(lab, &comms, &comms2, "split polynomial");
+            }
             lab.leave();
         }
         E_DKG1 => {
@@ -108,6 +121,11 @@ pub fn run<C: RandomizedCiphersuite, L: Lab<C>>(lab: &mut L, p: &Params) {
             let mut comms: Vec<Element<C>> = pk1.commitment().coefficients().iter().map(|c| c.value()).collect();
             comms.push(*pk1.proof_of_knowledge().R());
             commitments_are_draws::<C, L>(lab, &comms, 0, "key-generation polynomial and proof nonce");
+            if let Ok((_, pk3)) = fc::keys::dkg::part1::<C, _>(id, p.n, p.t, &mut *lab.rng()) {
+                let mut comms3: Vec<Element<C>> = pk3.commitment().coefficients().iter().map(|c| c.value()).collect();
+                comms3.push(*pk3.proof_of_knowledge().R());
+                changes_with_source::<C, L>(lab, &comms, &comms3, "key-generation polynomial and proof nonce");
+            }
             lab.eq_s(*pk1.proof_of_knowledge().z(), *pk2.proof_of_knowledge().z(), "same source output => same proof of knowledge");
             lab.eq_e(*pk1.proof_of_knowledge().R(), *pk2.proof_of_knowledge().R(), "same source output => same proof commitment");
             lab.leave();
@@ -126,6 +144,10 @@ pub fn run<C: RandomizedCiphersuite, L: Lab<C>>(lab: &mut L, p: &Params) {
             let comms: Vec<Element<C>> = shares[0].commitment().coefficients().iter().map(|c| c.value()).collect();
             lab.check(comms.len() == t - 1, "the refreshing commitment carries the t-1 non-constant coefficients");
             commitments_are_draws::<C, L>(lab, &comms, before, "refresh polynomial");
+            if let Ok((shares2, _)) = fc::keys::refresh::compute_refreshing_shares::<C, _>(keys.1.clone(), &ids, lab.rng()) {
+                let comms2: Vec<Element<C>> = shares2[0].commitment().coefficients().iter().map(|c| c.value()).collect();
+                changes_with_source::<C, L>(lab, &comms, &comms2, "refresh polynomial");
+            }
             lab.leave();
         }
         E_REFRESH_DKG1 => {
@@ -140,6 +162,11 @@ pub fn run<C: RandomizedCiphersuite, L: Lab<C>>(lab: &mut L, p: &Params) {
             let mut comms: Vec<Element<C>> = pk.commitment().coefficients().iter().map(|c| c.value()).collect();
             comms.push(*pk.proof_of_knowledge().R());
             commitments_are_draws::<C, L>(lab, &comms, 0, "distributed-refresh polynomial and proof nonce");
+            if let Ok((_, pk2)) = fc::keys::refresh::refresh_dkg_part1::<C, _>(id, p.n, p.t, &mut *lab.rng()) {
+                let mut comms2: Vec<Element<C>> = pk2.commitment().coefficients().iter().map(|c| c.value()).collect();
+                comms2.push(*pk2.proof_of_knowledge().R());
+                changes_with_source::<C, L>(lab, &comms, &comms2, "distributed-refresh polynomial and proof nonce");
+            }
             lab.leave();
         }
         E_REPAIR1 => {
@@ -157,10 +184,24 @@ pub fn run<C: RandomizedCiphersuite, L: Lab<C>>(lab: &mut L, p: &Params) {
             };
             let h = helpers.len();
             let vals: Vec<Element<C>> = deltas.values().map(|d| g::<C>() * d.to_scalar()).collect();
-            // the first |H|-1 outgoing values (ascending helper order) are the draws, the last one the remainder
-            commitments_are_draws::<C, L>(lab, &vals[..h - 1], before, "repair blinding values");
-            for i in 0..h - 1 {
-                lab.ne_generic_e(vals[i], vals[h - 1], "the remainder value coincides with no blinding value");
+            // |H|-1 of the outgoing values are blinders, one is the remainder — which helper gets the
+            // remainder is not prescribed: every |H|-1 of the |H| values are a full-rank image of draws
+            // (so any |H|-1 recipients together learn nothing), and no two values coincide
+            let _ = before;
+            for leave_out in 0..h {
+                let sub: Vec<Element<C>> = vals.iter().enumerate().filter(|(i, _)| *i != leave_out).map(|(_, v)| *v).collect();
+                if !sub.is_empty() {
+                    lab.jointly_uniform_e(&sub, "repair values: every |H|-1 of the outgoing values are a full-rank image of distinct draws from the caller's source");
+                }
+            }
+            for i in 0..h {
+                for j in (i + 1)..h {
+                    lab.ne_generic_e(vals[i], vals[j], "repair values: no two outgoing values of one call coincide");
+                }
+            }
+            if let Ok(deltas2) = fc::keys::repairable::repair_share_part1(&helpers, &keys.0[&helpers[0]], lab.rng(), target) {
+                let vals2: Vec<Element<C>> = deltas2.values().map(|d| g::<C>() * d.to_scalar()).collect();
+                changes_with_source::<C, L>(lab, &vals, &vals2, "repair values");
             }
             lab.leave();
         }
